@@ -83,7 +83,20 @@ static inline float X_ldexp_f32_i32(float x, int32_t e) {
   int32_t k = e > 400 ? 400 : (e < -400 ? -400 : e);
   return (float)((double)x * avm_u2d((uint64_t)(1023 + k) << 52));
 }
-double X_ldexp_f64_i32(double x, int32_t e);   /* no exact model at hand: functions reaching it are undecided */
+/* binary64: x * 2^k exactly in long double (three exact multiplications by powers of two; |k| clamped to 2200, beyond which
+ * the result is already the overflow / underflow limit), then ONE rounding to binary64 in the current rounding mode */
+static inline double avm_pow2_f64(int k) { return avm_u2d((uint64_t)(1023 + k) << 52); }      /* |k| <= 1000 */
+static inline double avm_ldexp64_exact(double x, int64_t e) {
+  int k = e > 2200 ? 2200 : (e < -2200 ? -2200 : (int)e);
+  int k1 = k > 1000 ? 1000 : (k < -1000 ? -1000 : k); int r1 = k - k1;
+  int k2 = r1 > 1000 ? 1000 : (r1 < -1000 ? -1000 : r1); int k3 = r1 - k2;
+  return (double)((long double)x * (long double)avm_pow2_f64(k1) * (long double)avm_pow2_f64(k2) * (long double)avm_pow2_f64(k3));
+}
+static inline double X_ldexp_f64_i32(double x, int32_t e) {
+  uint64_t u = avm_d2u(x), m = u & 0x7fffffffffffffffull;
+  if (m >= 0x7ff0000000000000ull || m == 0) return x;
+  return avm_ldexp64_exact(x, (int64_t)e);
+}
 /* ---- allocation.  malloc succeeds (the properties do not speak about exhaustion) and returns storage aligned for
  * max_align_t (16); the residue of the block's address modulo 4096 is a ghost value so that stricter alignments can be
  * reasoned about: address(p) mod 4096 == (avm_base_mod + offset(p)) mod 4096 for pointers into the last malloc'ed block. */
